@@ -8,7 +8,7 @@ Line driver for C43 (see `harness/cmd/c43/main.go` for the line formats).
   Output `bl=<checksum of the S blooms> vec=<checksum of the 2048 vectors> B<j>=<bloom bytes> … V<i>=<vector bytes> …`.
 * `B <adh> <start> <m>,<t>,<a>,<b>,<c> <ops>` — bloom bookkeeping of the block store (`s<n>` commit n blocks, `r` reopen);
   start `G` = genesis created by this build, `j<h>` = block store written up to height h by a build without the bloom index.
-* `L <salt> <ops>` — a real solo ledger: `n<k>` k empty blocks, `t<tx>+<tx>…` a block with EVM transactions emitting logs,
+* `L <salt> <ops>` — a real solo ledger: `n<k>` k empty blocks, `t<tx>+<tx>…` a block with EVM transactions emitting logs (successful and failed ones, see `parseTx`),
   `r` reopen, `x` strip the bloom key spaces (data of a build without the bloom index) and reopen.
   Output of B and L: `fs=… key=… cur=… cache=… recs=<count>:<checksum> secs=<section>:<checksum>,…`; `a ## b` when the model
   as shipped and the sound variant differ.
@@ -67,7 +67,7 @@ def parseNats (s : String) : Option (List Nat) :=
 def parseBlock (s : String) : Option (Nat × Bloom) :=
   match s.splitOn ":" with
   | [j, ls] => match j.toNat?, parseLogs ls with
-    | some j, some (logs, tbl) => some (j, blockBloom (tableIdx tbl) [some logs])
+    | some j, some (logs, tbl) => some (j, blockBloom (tableIdx tbl) [some ⟨false, logs⟩])
     | _, _ => none
   | _ => none
 
@@ -158,15 +158,25 @@ def handleB (adh : Nat) (startS rule ops : String) : String :=
     | _, _ => "bad-op"
   | _, _ => "bad-op"
 
-/-- one transaction: `!` prefix = reverted (its logs are dropped) -/
-def parseTx (s : String) : Option (Option (List Log) × List (Bytes × Idx3)) :=
-  if s.startsWith "!" then
-    match parseLogs (s.drop 1).toString with
-    | some _ => some (some [], [])
-    | none => none
-  else match parseLogs s with
-    | some (ls, tbl) => some (some ls, tbl)
-    | none => none
+/-- one transaction: `<flags><attempted logs>[~<fee log>]`.  Flags: `$` pays a non-zero gas price (the harness funds the sender with
+a native ONG transfer placed in the same block before the EVM transactions: a transaction WITHOUT receipt), `!` the init code
+reverts, `o` it runs out of gas, `v` the value exceeds the balance.  A failed transaction loses the logs of its execution but keeps
+the fee log.  Result: the receipts this transaction adds to the block (funding transaction first), and the bit-number table. -/
+def parseTx (s : String) : Option (List (Option Receipt) × List (Bytes × Idx3)) :=
+  let cs := s.toList
+  let flags := cs.takeWhile (fun c => c == '$' || c == '!' || c == 'o' || c == 'v')
+  let rest := String.ofList (cs.dropWhile (fun c => c == '$' || c == '!' || c == 'o' || c == 'v'))
+  let priced := flags.contains '$'
+  let failed := flags.contains '!' || flags.contains 'o' || flags.contains 'v'
+  let (att, fee) := match rest.splitOn "~" with
+    | [a, f] => (a, some f)
+    | _ => (rest, none)
+  match parseLogs att, (match fee with | some f => parseLogs f | none => some ([], [])) with
+  | some (ls, tbl), some (fl, ftbl) =>
+    if priced != fee.isSome then none else
+    let logs := (if failed then [] else ls) ++ fl
+    some ((if priced then [none] else []) ++ [some ⟨failed, logs⟩], tbl ++ ftbl)
+  | _, _ => none
 
 /-- L ops are translated to B ops plus the table height → bloom -/
 def lOps : List String → Nat → List String → List (Nat × Bloom) → Option (List String × List (Nat × Bloom))
@@ -181,7 +191,10 @@ def lOps : List String → Nat → List String → List (Nat × Bloom) → Optio
       match ((op.drop 1).toString.splitOn "+").mapM parseTx with
       | some txs =>
         let idx := tableIdx (txs.map (·.2)).flatten
-        lOps r (h + 1) ("s1" :: acc) ((h + 1, blockBloom idx (txs.map (·.1))) :: tbl)
+        -- funding transactions (no receipt) come first in the block, then the EVM transactions in order
+        let rs := (txs.map (·.1))
+        let receipts := (rs.map (fun l => l.filter (·.isNone))).flatten ++ (rs.map (fun l => l.filter (·.isSome))).flatten
+        lOps r (h + 1) ("s1" :: acc) ((h + 1, blockBloom idx receipts) :: tbl)
       | none => none
     else none
 
